@@ -203,6 +203,42 @@ pub fn run(_env: &Env, run: &Run) -> (Stats, Coverage) {
             all_ops(s, &chars, st);
             all_ctx(s, &chars, st);
         }));
+        // two-call histories: a context rule on A at p, then on B (same allocation, same byte length) at q >= p
+        let hs2: Vec<char> = [0x6Cu32, 0xB7, 0xE9, 0x200D, 0x94D, 0x65E5].iter().map(|c| char::from_u32(*c).unwrap()).collect();
+        let strs2 = all_strings(&hs2, 3);
+        st.merge(crate::props::c03::two_call_histories(&strs2, |buf, a, p, b, q, st| {
+            let la: Vec<u32> = a.chars().map(|c| c as u32).collect();
+            let lb: Vec<u32> = b.chars().map(|c| c as u32).collect();
+            for ra in crate::props::c03::rules_present(&la) {
+                for rb in crate::props::c03::rules_present(&lb) {
+                    buf.clear();
+                    buf.push_str(a);
+                    let _ = ctx_rule(ra, buf, p);
+                    buf.clear();
+                    buf.push_str(b);
+                    let o = ctx_rule(rb, buf, q);
+                    st.evaluations += 2;
+                    if matches!(o, CtxOut::Panic(_)) {
+                        let name = rb.name().to_string();
+                        st.violation("panic", || Case::new("ctx2").s(a).s(b).n(p as u64).n(q as u64).x(json!([ra.name(), name])), "Ok / NotApplicable / Undefined".into(), format!("{:?}", o));
+                    }
+                }
+            }
+        }));
+        // one character longer over the symbols whose encoded lengths differ (1, 2, 2, 3, 3 bytes)
+        let hs4: Vec<char> = [0x6Cu32, 0xB7, 0xE9, 0x200D, 0x65E5].iter().map(|c| char::from_u32(*c).unwrap()).collect();
+        let strs4: Vec<String> = all_strings(&hs4, 4).into_iter().filter(|s| s.chars().count() == 4).collect();
+        st.merge(same_buffer_pairs(&strs4, |s, st| {
+            let chars: Vec<char> = s.chars().collect();
+            all_ctx(s, &chars, st);
+            for c in [Class::Identifier, Class::Freeform] {
+                let r = allows(c, s);
+                st.evaluations += 1;
+                if matches!(r, OutU::Panic(_)) {
+                    bad("allows", s, &format!("{:?}", c), &r, st);
+                }
+            }
+        }));
     }
     st.sample(json!({"input": ["U+00E9", " "], "ops": "4 profiles x (prepare, enforce, static prepare/enforce, 4 compare forms, 5 Rules methods) + allows x 2", "expected": "no panic"}));
     st.sample(json!({"input": ["U+200C"], "op": "rule_zero_width_nonjoiner", "position": "usize::MAX", "expected": "Undefined, no arithmetic overflow"}));
@@ -235,6 +271,22 @@ pub fn replay(_env: &Env, case: &Case) -> Vec<Violation> {
             let mut all = Stats::default();
             all_ctx(&s, &chars, &mut all);
             st.violations = all.violations.into_iter().filter(|v| case.op != "ctx" || (v.case.extra == case.extra && v.case.nums == case.nums)).collect();
+        }
+        "ctx2" if case.strs.len() == 2 && case.nums.len() == 2 => {
+            let (a, b) = (case.str_at(0), case.str_at(1));
+            let ra = case.extra.get(0).and_then(|v| v.as_str()).and_then(CtxRule::from_name);
+            let rb = case.extra.get(1).and_then(|v| v.as_str()).and_then(CtxRule::from_name);
+            if let (Some(ra), Some(rb)) = (ra, rb) {
+                let mut buf = String::with_capacity(64);
+                buf.push_str(&a);
+                let _ = ctx_rule(ra, &buf, case.nums[0] as usize);
+                buf.clear();
+                buf.push_str(&b);
+                let o = ctx_rule(rb, &buf, case.nums[1] as usize);
+                if matches!(o, CtxOut::Panic(_)) {
+                    st.violation("panic", || case.clone(), "Ok / NotApplicable / Undefined".into(), format!("{:?}", o));
+                }
+            }
         }
         "classify" | "registry" => {
             if let Some(v) = case.nums.first() {
